@@ -247,7 +247,7 @@ def _cand_worker(args):
         return None
 
 
-def shrink(check: Check, program: dict, violation: dict, findings: list, workers: int, timeout: float, budget_s: float = 240.0):
+def shrink(check: Check, program: dict, violation: dict, findings: list, workers: int, timeout: float, budget_s: float = 120.0):
     """ddmin over op/fault lists, then argument simplifiers, keeping the oracle class."""
     t0 = time.monotonic()
     target = violation["oracle"]
@@ -478,6 +478,7 @@ def main(check: Check, argv=None) -> int:
 
         total = args.runs if args.runs is not None else cfg["runs"]
         violating: list = []
+        n_unknown = 0
         next_run = args.start
         end_run = args.start + total
         wave = max(cfg["batch"] * args.workers * 2, 1)
@@ -514,7 +515,9 @@ def main(check: Check, argv=None) -> int:
                     agg["samples"].append(check.sample(p["program"]))
                 if p["violations"]:
                     violating.append(p)
-            if len(violating) >= 8 or harness_msgs:
+                    if any(oplog.match_known(check.prop_id, v, findings) is None for v in p["violations"]):
+                        n_unknown += 1
+            if n_unknown >= 8 or harness_msgs:
                 break
 
         # ---- triage violations
